@@ -9,6 +9,7 @@ import (
 	"strings"
 
 	"github.com/tobgu/qframe"
+	qcsv "github.com/tobgu/qframe/config/csv"
 	qsql "github.com/tobgu/qframe/config/sql"
 
 	"verif/harness/core"
@@ -30,6 +31,10 @@ type faultCase struct {
 	Site  string `json:"site,omitempty"`  // driver: prepare query next exec
 	// ErrKind (readers): 0 a plain error, 1 io.ErrUnexpectedEOF, 2 an error that wraps io.EOF (errors.Is(err, io.EOF) holds, err == io.EOF does not)
 	ErrKind int `json:"err_kind,omitempty"`
+	// IgnoreEmpty (ReadCSV): read with IgnoreEmptyLines(true) (documents with blank lines)
+	IgnoreEmpty bool `json:"ignore_empty,omitempty"`
+	// WithHeaders (ReadCSV): the document has no header line, the names are given with csv.Headers
+	WithHeaders bool `json:"with_headers,omitempty"`
 }
 
 var c15ReaderErrs = []error{nil, io.ErrUnexpectedEOF, fmt.Errorf("connection reset while reading: %w", io.EOF)}
@@ -69,6 +74,8 @@ func csvFaultDocs() []string {
 		long += fmt.Sprintf("%d,\"x%d\"\n", i, i)
 	}
 	return []string{"x\n1\n", "x,y\n1,a\n2,b\n", "x,y\n1,a\n2,b", "x,y\n\"a\nb\",1\n\"c\"\"d\",2\n", "x,y\r\n1,a\r\n2,b\r\n3,c\r\n", "x\n", "x,y", long,
+		// blank lines first, between and after the rows (index csvBlankDocs..): read with IgnoreEmptyLines too
+		"a,b\n\n1,2\n3,4\n", "a,b\n1,2\n\n3,4\n", "a,b\n1,2\n3,4\n\n", "a\n\n1\n\n\n2\n",
 		// ragged documents: rows with more and with fewer fields than the header
 		"a,b\n1,2,3\n4,5\n", "a,b\n1,2\n3,4,5,6\n", "a,b,c\n1,2\n",
 		// long documents (index csvLongDocsFrom..): rows longer than the reader's 1 KiB / 2 KiB / 4 KiB buffer sizes
@@ -76,6 +83,10 @@ func csvFaultDocs() []string {
 		"id,s\n1,\"" + strings.Repeat("u", 4200) + "\"\n2,q\n"}
 }
 
+
+func csvHeaderlessDocs() []string {
+	return []string{"1,2\n3,4\n5,6\n", "1,x\n", "\"a\nb\",1\n2,\"c\"\n"}
+}
 
 func jsonFaultDocs() []string {
 	return []string{`[{"a":1,"b":"x"}]`, `[{"a":1.5,"b":null},{"a":2,"b":"y"},{"a":3,"b":"z"}]`, `[]`, "[{\"a\":true}]\n",
@@ -115,11 +126,29 @@ func runFaultCase(c faultCase) *core.Failure {
 		if c.Entry == "ReadJSON" {
 			docs = jsonFaultDocs()
 		}
+		if c.Entry == "ReadCSV" && c.Input >= 100 {
+			// documents without a header line (column names through csv.Headers)
+			docs, c.Input, c.WithHeaders = csvHeaderlessDocs(), c.Input-100, true
+		}
 		doc := []byte(docs[c.Input])
 		rd := &schedReader{doc: doc, failAt: c.At, failWith: c.With, maxChunk: c.Chunk, cuts: c.Cuts, failErr: c15ReaderErrs[c.ErrKind%len(c15ReaderErrs)]}
 		var q qframe.QFrame
+		var csvOpts []qcsv.ConfigFunc
+		if c.IgnoreEmpty {
+			csvOpts = append(csvOpts, qcsv.IgnoreEmptyLines(true))
+		}
+		if c.WithHeaders {
+			csvOpts = append(csvOpts, qcsv.Headers([]string{"a", "b"}))
+		}
 		if c.Entry == "ReadCSV" {
-			q = qframe.ReadCSV(rd)
+			// a short history: a read that fails on its content (a row with too many fields), from a reader that
+			// hands over its last bytes together with io.EOF; nothing of it may reach the next read
+			if bad := qframe.ReadCSV(&schedReader{doc: []byte("x,y\n1,2,3\n"), failAt: -1, eofWithData: true}); bad.Err == nil {
+				return core.Failf("ReadCSV accepted a row with more fields than the header")
+			}
+		}
+		if c.Entry == "ReadCSV" {
+			q = qframe.ReadCSV(rd, csvOpts...)
 		} else {
 			q = qframe.ReadJSON(rd)
 		}
@@ -142,7 +171,7 @@ func runFaultCase(c faultCase) *core.Failure {
 			// the fault was never reached: the result must be the complete fault-free result
 			var full qframe.QFrame
 			if c.Entry == "ReadCSV" {
-				full = qframe.ReadCSV(bytes.NewReader(doc))
+				full = qframe.ReadCSV(bytes.NewReader(doc), csvOpts...)
 			} else {
 				full = qframe.ReadJSON(bytes.NewReader(doc))
 			}
@@ -246,6 +275,19 @@ func c15Run(ctx *core.Ctx) {
 		}
 	}
 	chunks := []int{0, 1, 2, 3, 5, 7}
+	for hi, doc := range csvHeaderlessDocs() {
+		for at := 0; at <= len(doc); at++ {
+			for _, with := range []int{0, 1} {
+				for _, ch := range []int{0, 1, 3} {
+					for ek := range c15ReaderErrs {
+						if with <= at && ctx.Mine() {
+							exec(faultCase{Entry: "ReadCSV", Input: 100 + hi, At: at, With: with, Chunk: ch, ErrKind: ek, WithHeaders: true}, "reader-fault-headers-option")
+						}
+					}
+				}
+			}
+		}
+	}
 	for _, entry := range []string{"ReadCSV", "ReadJSON"} {
 		docs := csvFaultDocs()
 		if entry == "ReadJSON" {
@@ -279,6 +321,9 @@ func c15Run(ctx *core.Ctx) {
 							}
 							if ctx.Mine() {
 								exec(faultCase{Entry: entry, Input: di, At: at, With: with, Chunk: ch, ErrKind: ek}, "reader-fault")
+							}
+							if entry == "ReadCSV" && strings.Contains(doc, "\n\n") && ctx.Mine() {
+								exec(faultCase{Entry: entry, Input: di, At: at, With: with, Chunk: ch, ErrKind: ek, IgnoreEmpty: true}, "reader-fault-ignore-empty-lines")
 							}
 						}
 					}
